@@ -150,3 +150,112 @@ Example C17_interp_nonvacuous :
   ((nth 4 (hll_bias 10) nan - nth 3 (hll_bias 10) nan) / (nth 4 (hll_raw 10) nan - nth 3 (hll_raw 10) nan)
    * (1310 - nth 3 (hll_raw 10) nan) + nth 3 (hll_bias 10) nan)%float.
 Proof. vm_compute. repeat split; reflexivity. Qed.
+
+(* ---------------- source ties ----------------
+   The float kernels of query() as regenerated from hyperloglog.py's AST on this run (generated/KernelsHllQuery.v,
+   harness/pytrans_hllq.py) are the pieces of the model the theorems above are about.  float64 is PrimFloat; an integer
+   converted to float64 (explicitly, or as the uint64 `threshold` compared with a float64) is f_of_Z; everything the
+   code calls is an argument of the generated definition.
+
+   _linear_counting (l.68) with np.log as the argument np_log: the formula, for every np_log; with the model's
+   logarithm plugged in it is linear_counting *)
+From Sketchnu Require KernelsHllQuery KernelTieHllQuery.
+Theorem C17_linear_counting_source_tie :
+  (forall (np_log : float -> float) (m n_zero : Z),
+     KernelsHllQuery.gen_linear_counting np_log m n_zero = (f_of_Z m * np_log (f_of_Z m / f_of_Z n_zero))%float) /\
+  (forall m n_zero : Z, KernelsHllQuery.gen_linear_counting ln_model m n_zero = linear_counting m n_zero).
+Proof. exact KernelTieHllQuery.tie_hllq_linear_counting_all. Qed.
+Print Assumptions C17_linear_counting_source_tie.
+
+(* _estimation_function (l.81-84): the accumulator's initial value, the loop body `total += 2.0 ** (-float64(r))` and
+   the result expression, with `a ** b` as the argument pow.  Reading, stated as the hypothesis: pow 2.0 (-float64(r))
+   is the exact power of two 2^-r (pow2neg r) for the 256 values a uint8 register can hold.  Then the fold of the
+   generated body over the registers is sum_pow2neg and the generated result is estimation_function *)
+Theorem C17_estimation_source_tie : forall pow : float -> float -> float,
+  (forall r, 0 <= r < 256 -> pow 2%float (- f_of_Z r)%float = pow2neg r) ->
+  KernelsHllQuery.gen_estimation_init = 0%float /\
+  (forall (total : float) (r : Z), 0 <= r < 256 ->
+     KernelsHllQuery.gen_estimation_step pow total r = (total + pow2neg r)%float) /\
+  (forall regs : list Z, Forall (fun r => 0 <= r < 256) regs ->
+     fold_left (KernelsHllQuery.gen_estimation_step pow) regs KernelsHllQuery.gen_estimation_init = sum_pow2neg regs) /\
+  (forall (alpha : float) (m : Z) (total : float), 0 <= m < 2^31 ->
+     KernelsHllQuery.gen_estimation_final alpha m total = (alpha * f_of_Z (m * m) / total)%float) /\
+  (forall (regs : list Z) (m : Z) (alpha : float), Forall (fun r => 0 <= r < 256) regs -> 0 <= m < 2^31 ->
+     KernelsHllQuery.gen_estimation_final alpha m
+       (fold_left (KernelsHllQuery.gen_estimation_step pow) regs KernelsHllQuery.gen_estimation_init)
+     = estimation_function regs m alpha).
+Proof. exact KernelTieHllQuery.tie_hllq_estimation_all. Qed.
+Print Assumptions C17_estimation_source_tie.
+
+(* the hypothesis on pow is satisfiable: pow_model b e = 2^-r when b = 2.0 and e = -float64(r), r = 0..255 (table
+   search), NaN elsewhere *)
+Theorem C17_estimation_source_tie_pow_satisfiable :
+  forall r, 0 <= r < 256 -> KernelTieHllQuery.pow_model 2%float (- f_of_Z r)%float = pow2neg r.
+Proof. exact KernelTieHllQuery.tie_hllq_pow_satisfiable. Qed.
+Print Assumptions C17_estimation_source_tie_pow_satisfiable.
+
+(* _query (l.144-163), the whole body: for every array type and every choice of the four functions it calls
+   (np.count_nonzero, np.interp, _linear_counting, _estimation_function) the value returned is the one selected by
+   `regime` (C17_regime_spec) from the results of those calls; the 64-bit wraps of `m - uint64(count)` and `5 * m` are
+   vacuous for 0 <= count <= m <= 2^60.  With the model's functions plugged in it is query_model *)
+Theorem C17_query_source_tie :
+  (forall (A8 AF : Type) (np_count_nonzero : A8 -> Z) (np_interp : float -> AF -> AF -> float)
+          (f_linear_counting : Z -> Z -> float) (f_estimation_function : A8 -> Z -> float -> float)
+          (registers : A8) (m threshold : Z) (alpha : float) (raw_estimate bias_data : AF),
+     0 <= np_count_nonzero registers <= m -> m <= 2^60 ->
+     KernelsHllQuery.gen_query A8 AF np_count_nonzero np_interp f_linear_counting f_estimation_function
+               registers m threshold alpha raw_estimate bias_data =
+     let n_zero := m - np_count_nonzero registers in
+     let lc := f_linear_counting m n_zero in
+     let est := f_estimation_function registers m alpha in
+     match regime m threshold n_zero lc est with
+     | LC => lc
+     | Corrected => (est - np_interp est raw_estimate bias_data)%float
+     | Raw => est
+     end) /\
+  (forall p regs, 7 <= p <= 16 -> Z.of_nat (length regs) = hllq_m p ->
+     KernelsHllQuery.gen_query (list Z) (list float) count_nz interp linear_counting estimation_function
+               regs (hllq_m p) (hll_threshold p) (alpha_model (hllq_m p)) (hll_raw p) (hll_bias p) = query_model p regs).
+Proof. exact KernelTieHllQuery.tie_hllq_query_all. Qed.
+Print Assumptions C17_query_source_tie.
+
+(* HyperLogLog.__init__ l.336: the expression assigned to self.alpha, as a function of self.m *)
+Theorem C17_alpha_source_tie : forall m, KernelsHllQuery.gen_alpha m = alpha_model m.
+Proof. exact KernelTieHllQuery.tie_hllq_alpha. Qed.
+Print Assumptions C17_alpha_source_tie.
+
+(* everything plugged together: the generated _query body calling the generated _linear_counting (np.log := ln_model)
+   and the generated _estimation_function (loop := fold_left over the register list), on the constants the
+   constructor stores for precision p (m = 2^p, threshold, the generated alpha, the two table rows), is query_model *)
+Theorem C17_query_model_source_tie : forall pow : float -> float -> float,
+  (forall r, 0 <= r < 256 -> pow 2%float (- f_of_Z r)%float = pow2neg r) ->
+  forall p regs, 7 <= p <= 16 -> regs_okb p regs = true ->
+  KernelsHllQuery.gen_query (list Z) (list float) count_nz interp (KernelsHllQuery.gen_linear_counting ln_model)
+            (fun registers m alpha =>
+               KernelsHllQuery.gen_estimation_final alpha m
+                 (fold_left (KernelsHllQuery.gen_estimation_step pow) registers KernelsHllQuery.gen_estimation_init))
+            regs (hllq_m p) (hll_threshold p) (KernelsHllQuery.gen_alpha (hllq_m p)) (hll_raw p) (hll_bias p)
+  = query_model p regs.
+Proof. exact KernelTieHllQuery.tie_hllq_query_model. Qed.
+Print Assumptions C17_query_model_source_tie.
+
+(* non-vacuity, by evaluating the generated definitions: the three regimes (the register files of
+   C17_regimes_nonvacuous, p = 7, threshold 80) through the generated pieces only, and each piece on a small input *)
+Example C17_source_tie_nonvacuous :
+  let q := fun regs =>
+    KernelsHllQuery.gen_query (list Z) (list float) count_nz interp (KernelsHllQuery.gen_linear_counting ln_model)
+      (fun registers m alpha =>
+         KernelsHllQuery.gen_estimation_final alpha m
+           (fold_left (KernelsHllQuery.gen_estimation_step KernelTieHllQuery.pow_model) registers
+                      KernelsHllQuery.gen_estimation_init))
+      regs 128 (hll_threshold 7) (KernelsHllQuery.gen_alpha 128) (hll_raw 7) (hll_bias 7) in
+  map (fun rle => q (expand_rle rle))
+      [[(0, 100); (1, 28)]; [(0, 20); (1, 60); (2, 48)]; [(1, 60); (2, 68)]; [(9, 128)]]
+  = [0x1.f991c6cb3b379p+4%float; 0x1.3ac67801465adp+7%float; 0x1.d0d8e63dad78cp+7%float; 0x1.6e37ef20b947ap+15%float] /\
+  KernelsHllQuery.gen_linear_counting (fun x => x) 128 32 = 512%float /\
+  KernelsHllQuery.gen_linear_counting ln_model 128 128 = 0%float /\
+  KernelsHllQuery.gen_estimation_step KernelTieHllQuery.pow_model 1 2 = 1.25%float /\
+  KernelsHllQuery.gen_estimation_final 0.5 128 64 = 128%float /\
+  KernelsHllQuery.gen_alpha 128 = 0x1.6e37ef20b947ap-1%float /\
+  hll_threshold 7 = 80.
+Proof. vm_compute. repeat split; reflexivity. Qed.
